@@ -353,7 +353,8 @@ Qed.
 (* the event function: reset the sets, fire the node (setFiringTime on n first), log, cascade (never on n), probe *)
 Lemma fired_prog_spec t n l w w' acts : fired_prog cfg t (EN n) l w = (w', acts) ->
   exists w1 a1 ns acts0,
-    psteps t [n] (w, []) (w1, a1)
+    (w1, a1) = fire_node cfg t n (set_sets [] [] w, [])
+    /\ psteps t [n] (w, []) (w1, a1)
     /\ psteps t ns (add_log t n w1, a1) (w', acts0) /\ ~ In n ns
     /\ acts = acts0 ++ probe cfg w'.
 Proof.
@@ -361,7 +362,7 @@ Proof.
   pose proof (fire_node_steps t n (set_sets [] [] w) []) as H1.
   assert (Hb : In n (pw_bumped (fst (fire_node cfg t n (set_sets [] [] w, []))))).
   { unfold fire_node. cbn [fst snd]. apply addz_In. left. reflexivity. }
-  destruct (fire_node cfg t n (set_sets [] [] w, [])) as [w1 a1]. cbn [fst snd] in *.
+  destruct (fire_node cfg t n (set_sets [] [] w, [])) as [w1 a1] eqn:EFN. cbn [fst snd] in *.
   destruct (pop_order (add_log t n w1)) as [ms w3] eqn:E3.
   pose proof (pop_order_wsame _ _ _ E3) as S3.
   assert (Hb3 : In n (pw_bumped w3)) by (rewrite (ws_bd _ _ S3); exact Hb).
